@@ -95,3 +95,28 @@ def maybe_func(scope, name: str):
         if isinstance(n, (ast.FunctionDef, ast.AsyncFunctionDef)) and n.name == name:
             return n
     return None
+
+
+@functools.lru_cache(None)
+def emitted_token_kinds() -> frozenset[str]:
+    """Token kinds the tokenizer can construct: every `Token.X` mentioned in tokenize.py / tokenizer.py
+    outside a comparison (comparisons only *test* a kind)."""
+    out: set[str] = set()
+    for rel in (TOKENIZE, TOKENIZER):
+        mod = parse_py(rel)
+        in_compare: set[int] = set()
+        for n in ast.walk(mod):
+            if isinstance(n, ast.Compare):
+                for sub in ast.walk(n):
+                    in_compare.add(id(sub))
+        for n in ast.walk(mod):
+            if isinstance(n, ast.Attribute) and isinstance(n.value, ast.Name) and n.value.id == "Token" \
+                    and id(n) not in in_compare:
+                out.add(n.attr)
+    if "NAME" not in out or "OP" not in out:
+        raise AnalysisError("could not find the token kinds the tokenizer emits")
+    return frozenset(out)
+
+
+def never_emitted_token_kinds() -> frozenset[str]:
+    return frozenset(token_enum_names()) - emitted_token_kinds()
